@@ -17,6 +17,8 @@ HOOK_CFG = "smlxl_storage_layout_extractor_verif"
 ENV = dict(os.environ)
 ENV["CARGO_NET_OFFLINE"] = "true"
 ENV.setdefault("CARGO_TERM_COLOR", "never")
+# verification hooks in /repo are add-only accessors; every engine builds with them on
+ENV["RUSTFLAGS"] = (os.environ.get("RUSTFLAGS", "") + " --cfg " + HOOK_CFG).strip()
 
 
 def seed():
